@@ -241,6 +241,18 @@ def do_split():
         fail("split:assignment", "vector2xy_split does not return the vectors selected by v.unit <= hemisphere",
              {"vs": vs, "up": up, "lo": lo})
         return
+    # coordinates: every selected vector is projected as its UNIT vector (independent reference formula)
+    U = np.asarray(V.unit.data, float).reshape(-1, 3)
+    for pole, mask, got, tag2 in ((-1, mu, up, "upper"), (1, ml, lo, "lower")):
+        ref = []
+        for u, m in zip(U, mask):
+            if m:
+                den = u[2] - pole
+                ref.append([0.0, 0.0] if den == 0 else [-pole * u[0] / den, -pole * u[1] / den])
+        if len(ref) == len(got) and len(ref) and np.max(np.abs(np.array(ref) - np.array(got))) > 1e-9:
+            fail("split:coordinates", f"vector2xy_split {tag2} coordinates differ from the stereographic projection of the "
+                                      f"unit vectors (non-unit input is not normalised?)", {"vs": vs, tag2: got, "expected": ref})
+            return
     for v, a, b in zip(vs, mu, ml):
         n = norm(v)
         if n == 0:
